@@ -1,12 +1,16 @@
 import Std.Data.HashMap
 import Driver.Util
 import Driver.C03
+import Driver.C06
+import Driver.C11
 import Driver.C16
 import Driver.Smb
 open Driver
 
 def allEntries : List Entry :=
   Driver.C03.entries
+  ++ Driver.C06.entries
+  ++ Driver.C11.entries
   ++ Driver.C16.entries
   ++ Driver.Smb.entries
 
